@@ -1486,6 +1486,17 @@ def c16_programs(tier, sd):
                     "world": [["q", "obj", "PL"]],
                     "ops": [["randomize", ["q"]], ["list_append", ["q", "l"], 5], ["randomize", ["q"]], ["randomize_with", ["q"], [E(["==", F("k"), lit(1)]), E(["==", F("k"), lit(2)])]],
                             ["list_append", ["q", "l"], 6], ["randomize", ["q"]], ["list_clear", ["q", "l"]], ["list_append", ["q", "l"], 7], ["randomize", ["q"]]]})
+    # soft statements inside a dynamic block, referenced together with a conflicting inline soft, across repeated and failing calls:
+    # the per-call soft bookkeeping (priorities) must start afresh every time
+    SD = {"name": "SD", "fields": [fld("a", ("u", 4)), fld("b", ("u", 4))],
+          "blocks": [["cb", "c", [E(["<", F("a"), lit(12)])]], ["ds", "dyn", [["soft", ["==", F("a"), lit(1)]], E(["<", F("b"), lit(9)])]]]}
+    il_soft = [E(["dyn", "ds"]), ["soft", ["==", F("a"), lit(2)]]]
+    unsat2 = [E(["dyn", "ds"]), E(["==", F("b"), lit(10)])]
+    out.append({"tag": "fault_soft_dyn", "desc": "softs of a dynamic block vs a later inline soft, repeated and failing calls", "prog": {"enums": {}, "classes": [SD]},
+                "world": [["top", "obj", "SD"]], "soft_order_fixed": True,
+                "ops": [["randomize_with", ["top"], il_soft], ["randomize_with", ["top"], il_soft], ["randomize_with", ["top"], unsat2], ["randomize_with", ["top"], il_soft],
+                        ["randomize_with", ["top"], unsat2], ["randomize_with", ["top"], unsat2], ["randomize_with", ["top"], il_soft], ["randomize", ["top"]],
+                        ["randomize_with", ["top"], il_soft]]})
     # failing calls on objects whose constraints reach fields only through dynamic blocks of list elements (solver handles!)
     out += [dict(p, tag="fault_" + p["tag"]) for p in c06_programs(tier, sd) if p["tag"] == "inline_fail"]
     # seeded mixtures
